@@ -360,6 +360,14 @@ def run_band(case, ctx):
             c['frequency'] += shift if rng.random() < 1 else 0
         if rng.random() < 0.5:
             cs = cs[::G.pick(rng, [1, 2, 3])]
+        if rng.random() < 0.4:
+            # only carriers whose centre frequency lies in the band; the slot of the first / last one may still reach
+            # over the band edge (a comb shifted by a fraction of a slot)
+            d = G.pick(rng, [0.0, slot * 0.25, -slot * 0.25, slot * 0.4])
+            cs = [dict(c, frequency=c['frequency'] + d) for c in cs]
+            cs = [c for c in cs if f_lo <= c['frequency'] <= f_hi]
+            if not cs:
+                continue
         expected = [c['frequency'] for c in cs
                     if c['frequency'] - slot / 2 >= f_lo and c['frequency'] + slot / 2 <= f_hi]
         amp = make_amp(equipment, name, {'gain_target': float(getattr(eqa, 'gain_min', 15) or 15) + 1,
